@@ -89,20 +89,6 @@ func randomGraph(rng *rand.Rand, n, docs int, dangling bool) []absNode {
 			g[i].T = "leaf"
 		}
 	}
-	// documents without gaps
-	used := map[int]bool{}
-	for _, a := range g {
-		used[a.Doc] = true
-	}
-	for d := 0; d < docs; d++ {
-		if !used[d] {
-			for e := d + 1; e < docs; e++ {
-				if used[e] {
-					return nil
-				}
-			}
-		}
-	}
 	// wire the refs to kind-compatible targets
 	for i := range g {
 		if g[i].T != "ref" {
@@ -120,40 +106,88 @@ func randomGraph(rng *rand.Rand, n, docs int, dangling bool) []absNode {
 		}
 		g[i].To = cand[rng.Intn(len(cand))]
 	}
-	// all nodes reachable from the top-level nodes of the root document
-	seen := make([]bool, n)
-	var stack []int
-	for i := range g {
-		if g[i].Owner == 0 && g[i].Doc == 0 {
-			stack = append(stack, i)
-		}
-	}
-	if len(stack) == 0 {
-		return nil
-	}
-	for len(stack) > 0 {
-		m := stack[len(stack)-1]
-		stack = stack[:len(stack)-1]
-		if seen[m] {
-			continue
-		}
-		seen[m] = true
-		if g[m].T == "ref" {
-			if g[m].To > 0 {
-				stack = append(stack, g[m].To-1)
-			}
-			continue
-		}
-		for k := range g {
-			if g[k].Owner == m+1 {
-				stack = append(stack, k)
+	// every node is reachable from the top-level nodes of the root document: an unreachable element becomes the
+	// target of a reachable reference of its kind, or moves (with what it owns) into the root document
+	reach := func() []bool {
+		seen := make([]bool, n)
+		var stack []int
+		for i := range g {
+			if g[i].Owner == 0 && g[i].Doc == 0 {
+				stack = append(stack, i)
 			}
 		}
+		for len(stack) > 0 {
+			m := stack[len(stack)-1]
+			stack = stack[:len(stack)-1]
+			if seen[m] {
+				continue
+			}
+			seen[m] = true
+			if g[m].T == "ref" {
+				if g[m].To > 0 {
+					stack = append(stack, g[m].To-1)
+				}
+				continue
+			}
+			for k := range g {
+				if g[k].Owner == m+1 {
+					stack = append(stack, k)
+				}
+			}
+		}
+		return seen
 	}
-	for _, s := range seen {
-		if !s {
+	for round := 0; round < 4*n; round++ {
+		seen := reach()
+		u := -1
+		for i := range g {
+			if !seen[i] {
+				u = i
+				break
+			}
+		}
+		if u < 0 {
+			break
+		}
+		for g[u].Owner != 0 {
+			u = g[u].Owner - 1
+		}
+		var refs []int
+		for r := range g {
+			if seen[r] && g[r].T == "ref" && g[r].Kind == g[u].Kind && r != u {
+				refs = append(refs, r)
+			}
+		}
+		if len(refs) > 0 && rng.Intn(3) > 0 {
+			g[refs[rng.Intn(len(refs))]].To = u + 1
+			continue
+		}
+		// move the element and everything it owns into the root document
+		var move func(m int)
+		move = func(m int) {
+			g[m].Doc = 0
+			for k := range g {
+				if g[k].Owner == m+1 {
+					move(k)
+				}
+			}
+		}
+		move(u)
+	}
+	for _, ok := range reach() {
+		if !ok {
 			return nil
 		}
+	}
+	// documents without gaps: renumber
+	used := map[int]int{0: 0}
+	for i := range g {
+		if _, ok := used[g[i].Doc]; !ok {
+			used[g[i].Doc] = len(used)
+		}
+	}
+	for i := range g {
+		g[i].Doc = used[g[i].Doc]
 	}
 	return g
 }
